@@ -69,6 +69,9 @@ func (api *API) mapEncodeBasedOnType(
 ) (any, error) {
 	globalTS, _ := api.typeSettingsRegistry.GetByType(valueType)
 	ts = ts.merge(globalTS)
+	// whatever is entered below is not the object of the call any more (a further pointer level is, see below)
+	atCallObject := opts.atCallObject
+	opts.atCallObject = false
 	switch value.Kind() {
 	case reflect.Ptr:
 		if valueBigInt, ok := valueI.(*big.Int); ok {
@@ -99,7 +102,7 @@ func (api *API) mapEncodeBasedOnType(
 
 			// the settings handed in are those of a struct field (its key is not the key inside the typed object): the
 			// registered ones are used - unless the array is the object of the call, whose settings come with the call
-			if opts.callObject == 0 || value.Pointer() != opts.callObject {
+			if !atCallObject {
 				ts, _ = api.typeSettingsRegistry.GetByType(valueType)
 			}
 
@@ -109,6 +112,8 @@ func (api *API) mapEncodeBasedOnType(
 		// a pointer to anything else (map, slice, string, number, interface, another pointer) is written like the value it
 		// points to, as in the binary form
 		if elemValue.Kind() == reflect.Ptr || elemValue.Kind() == reflect.Interface {
+			opts.atCallObject = atCallObject && elemValue.Kind() == reflect.Ptr
+
 			return api.mapEncode(ctx, elemValue, ts, opts)
 		}
 
